@@ -127,8 +127,8 @@ q["require_probes"] = ["matrix_cases", "probe_requests_meeting_a_fault", "fault_
 t["require_probes"] = q["require_probes"]
 q["require_complete"] = t["require_complete"] = [("matrix_cases", "matrix_total")]
 plan("C06", "fault_enumeration",
-     "(a) single-fault matrix, enumerated completely in both tiers: 34 fault sites (account lookup, permission check, IsUnlocked error, unlock error, no passphrase opens it, "
-     "really sealed account, account unlocked by the operator through the account manager and locked again on an instance configured with no account passphrases, rules UNKNOWN/FAILED/DENIED, short and empty result list, store read error, store write error, wrong-length record, undecodable record, store closed, "
+     "(a) single-fault matrix, enumerated completely in both tiers: 35 fault sites (account lookup, permission check, IsUnlocked error, unlock error, no passphrase opens it, "
+     "really sealed account, account unlocked by the operator through the account manager and locked again on an instance configured with no account passphrases, rules UNKNOWN/FAILED/DENIED, short and empty result list, the ruler itself answering with no verdicts, store read error, store write error, wrong-length record, undecodable record, store closed, "
      "Sign error, 31- and 33-byte domain, 31-byte data root, an attestation request without target, source, data or id or absent from the list) x request kind {attest, attest-batch, propose, generic, multisign} x batch size {1,2,3,5,17} x position; "
      "(b) seeded multi-fault sequences: 2-6 concurrent requests with store/rules/Sign faults injected at yield points at a drawn rate, pre-drawn lookup/permission/unlock faults, "
      "and the store closed under load (the directory is reopened afterwards: whatever was signed must have its record). distinct = distinct matrix case or distinct faulty schedule; non-trivial = a fault actually fired on a request's path. "
